@@ -39,7 +39,7 @@ def generate(rng, focus, tier="quick"):
         if r < 0.06 and cfg["alpha"]["kind"] == "fixed":
             a0 = sorted(cfg["alpha"]["weights"])[0]
             cfg["alpha"]["weights"][a0] = rng.choice([-abs(cfg["alpha"]["weights"][a0] or 0.3), -1e-12, -5e-9,
-                                                      0.3 - 0.1 - 0.2, -1e-7])
+                                                      0.3 - 0.1 - 0.2, -1e-7, -1e-17, -5e-324])
             if len(cfg["alpha"]["weights"]) == 1 or all(v <= 0 for v in cfg["alpha"]["weights"].values()):
                 others = [a for a in sl.rb_assets(cfg) if a != a0]
                 if others:
@@ -351,6 +351,9 @@ def judge_c16(cfg, market, out, ctx):
         return
     from .signal import ref_value
     ref = RefPrices(market)
+    if cfg.get("signals_adjust") is not None:
+        ref = RefPrices(dict(market, adjust=cfg["signals_adjust"]))
+        ctx.probe("signals_on_a_data_handler_of_their_own")
     events = out.rec.events
     names = sorted(out.session.signals.signals.keys())
     u = cfg["universe"]
